@@ -328,5 +328,6 @@ EmitCases == Done => PrintT(<<"CASE", ToJson(out.rec)>>)
 
 -----------------------------------------------------------------------------
 NoDevs == {}
-RealDevs == AllDevs
+\* "proto_opset_stale" was real on the pinned tree and is fixed in /repo (fix: convert_version(ModelProto) left opset_import ...)
+RealDevs == AllDevs \ {"proto_opset_stale"}
 =============================================================================
